@@ -306,15 +306,23 @@ def enumerate_small():
 
 # minimised past failures and the witnesses of the known findings: run first on every run
 CORPUS = [
-    # C04-D1: declaration directly in @at-root lands in the outermost copied ancestor
+    # C04-D1 (fixed c501619; kept as regression case): declaration directly in @at-root landed in the outermost copied ancestor
     [["M", [[0]], [["S", "(s0: v)", [["R", [[["c", None, ["a"]]]],
                                       [["A", (False, ["supports"]), [["D", "p0", "v1", []]]]]]]]]]],
-    # C04-D2: IN_UNKNOWN_AT_RULE survives an @at-root that leaves the unknown at-rule
+    # C04-D2 (fixed ea0c00a; kept as regression case): IN_UNKNOWN_AT_RULE survived an @at-root that leaves the unknown at-rule
     [["U", "foo", "", [["A", (False, ["foo"]), [["D", "p0", "v1", []]]]]]],
     # C04-D3: a rule after an @at-root that leaves two levels is written before the @at-root's output
     [["M", [[0]], [["S", "(s0: v)", [["R", [[["c", None, ["a"]]]],
                                       [["A", (False, ["media", "supports"]), [["R", [[["c", "", []]]], [["D", "p0", "v1", []]]]]],
                                        ["R", [[["c", "", []]]], [["D", "p0", "v2", []]]]]]]]]]],
+    # seeded C04-m1: the re-created @media must stay inside its enclosing at-rule
+    [["S", "(s0: v)", [["M", [[0]], [["R", [[["c", None, ["a"]]]], [["M", [[1]], [["D", "p0", "v1", []]]]]],
+                                      ["R", [[["c", None, ["b"]]]], [["D", "p1", "v2", []]]]]]]]],
+    # seeded C04-m2: the nested-property namespace is restored after an inner block
+    [["R", [[["c", None, ["a"]]]], [["D", "p0", None, [["D", "p1", None, [["D", "p2", "v1", []]]], ["D", "p3", "v2", []]]]]]],
+    # seeded C04-m3: @at-root excluding only a middle ancestor (rule inside)
+    [["M", [[0]], [["S", "(s0: v)", [["R", [[["c", None, ["a"]]]],
+                                      [["A", (False, ["supports"]), [["R", [[["c", None, ["b"]]]], [["D", "p0", "v1", []]]]]]]]]]]]],
     # copy-when-following-sibling (DESIGN §8 example)
     [["M", [[0]], [["R", [[["c", None, ["a"]]]], [["M", [[1]], [["D", "p0", "v1", []]]],
                                                    ["R", [[["c", None, ["b"]]]], [["D", "p1", "v2", []]]]]]]]],
@@ -449,7 +457,7 @@ def constructs(tree, acc=None, depth=1):
     return acc
 
 
-MASK = 0     # which of the three known deviations grass no longer shows (bit i = TAGS[i] repaired); see detect_mask
+MASK = 3     # (C04-D1 and C04-D2 are fixed in /repo) which of the three known deviations grass no longer shows (bit i = TAGS[i] repaired); see detect_mask
 
 
 def detect_mask(pool):
